@@ -38,6 +38,9 @@ CHECKS = {
  "C05": dict(design="5/C05", technique="TLA+ IRMachine with byte memory and the DMA engine of snax_rt.h; TLC executes the code emitted by the real snax-copy-to-dma for every run-time descriptor and checks delivery and footprints against Layout.tla",
    text="Generated memref.copy ops (rank 1-3, <=64 elements, i8..i64; layouts none / strided permuted-padded static-dynamic with offsets / tiled-strided with equal tile bounds, random level order, gaps, offsets; dynamic dims) are lowered by the real snax-copy-to-dma; the emitted arith/scf/memref-metadata code and snax_dma_1d/2d_transfer calls are executed on IRMachine over a tagged byte memory for every concrete descriptor alternative (dynamic sizes, strides, offsets); at termination every logical element must sit at the destination layout's address (ElementsDelivered) and all transfers stay inside the source / destination footprints.",
    note="Known finding: dynamic strides assumed contiguous (witness known/C05); dynamic TSL steps are not generated."),
+ "C14": dict(design="5/C14", technique="TLA+ IRMachine spec with a core-id intrinsic; TLC runs the original function and the real dispatch-regions output once per core id and compares the core's log with the original log filtered by the statement's rule",
+   text="Generated functions (memref.copy, linalg.generic, dart.operation on snax_alu and on snax_xdma with an extension kernel, barriers, all-core ops; nested scf.for/scf.if; adjacent and separated) x core counts from {2,3,4,5}: for every core id c (snax_cluster_core_idx = c) and every trip count / branch outcome, the log of the dispatched program must equal the original log filtered by 'data movement -> core N-1, compute -> core 0, everything else -> all cores' in the original order; the same for every clone produced by function-constant-pinning from the emitted pin_to_constants attribute.",
+   note="Single-block functions (the machine interprets structured control flow only); xDMA extension kernel table read from the extensions' declarations."),
 }
 NA_REASON = "check not built yet in this round (planned: see DESIGN.md section 5); will be claimed once its TLA+ module and binding exist"
 def main():
